@@ -138,6 +138,8 @@ def attribute(it, base, name, fr, node):
             if d.ndim() != 2:
                 raise Unmodelled(".T of a non-matrix")
             return VTensor(d.permute([1, 0]), base.dtype)
+        if name == "grad":
+            return VOpaque("grad:" + base.dense().canon())
         if name in ("requires_grad",):
             return VBool(None, "autograd tracking")
         if name in ("grad_fn",):
